@@ -2,8 +2,10 @@
 Oracle: Floyd-Warshall distance (vt/oracle.py) + a hop-by-hop matcher of the returned coordinate list against the
 geometries of the edges that may carry each hop.  Case format, generator and network builder: vt/props/c06.py."""
 from vt.core import SubCheck, Violation
+from hypothesis import strategies as st
+
 from vt.props.c06 import (INF, agree, astar_cases, build_network, edge_points, enum_small, expand_small, graph_cases, handle,
-                          is_exact, model, _validate, _validate_astar)
+                          history_cases, is_exact, model, run_history, _validate, _validate_astar, _validate_hist)
 
 ASSUMPTIONS = [
     "oracle distance = Floyd-Warshall over arcs (src->tgt when orientation >= 0, tgt->src when orientation <= 0)",
@@ -15,6 +17,16 @@ ASSUMPTIONS = [
     "nothing is demanded for target == source; weights compare exactly when all are multiples of 0.5, else 1e-9 relative",
     "astar sub-check: A* routing is judged only where its straight-line heuristic is admissible (astar weight <= 1, every "
     "edge weight >= distance between its end nodes); 1e-9 relative",
+    "history / small-staged (program format and interpreter: c06.run_history): the property is taken to hold for a Network "
+    "object at ANY moment of its life - after further addEdge / addNode calls and after interfering activity (distance "
+    "queries, queries with cut-off, all_shortest_distances, prepare, sub_network extraction, searches on the sub-network, "
+    "which shares Node and Edge objects with its parent). Every judged path is matched against Floyd-Warshall and the "
+    "geometries of exactly the edges added so far; a path returned by a sub-network is judged against the edges that "
+    "sub-network holds (read back with getEdgesId()); sub_network(mode='GEOMETRIC') only with a coordinate as source",
+    "a rejected path of a history is asked again from a network built in one go from the same edges; if that one is "
+    "accepted the key is 'answer-depends-on-history' (original key in the message). Network.run_routing_backward is wrapped "
+    "on the tested object so that a cyclic predecessor chain (it would loop forever) is reported at once "
+    "(key predecessor-chain-cyclic) instead of through the CPU budget of the case",
 ]
 
 
@@ -134,6 +146,10 @@ def body_graph(case):
             if s != t:
                 r = check_path(case, net, s, t, D, exact)
                 labels |= {"unreachable-pair"} if r is None else r
+    return _finish(case, labels, exact, n)
+
+
+def _finish(case, labels, exact, n):
     if len({tuple(p) for p in case["pos"]}) < n:
         labels.add("coincident-nodes")
     if case.get("abscurv"):
@@ -143,6 +159,35 @@ def body_graph(case):
         labels.add("astar_wgt=%g" % case["astar"])
     nt = bool(labels & {"mh-against-storage", "mh-zero-weight", "mh-parallel-different-weight"})
     return {"nt": nt, "cls": sorted(labels)}
+
+
+def body_history(case):
+    """one Network object built in stages, paths judged between / after interfering activity (format: c06.run_history)"""
+    _validate_hist(case)
+    exact = is_exact(case) and case.get("astar") is None
+    hlabels, judged, plabels, _ = run_history(case, path_judge=check_path)
+    if not judged:
+        return {"undef": True, "cls": ["no-judged-path"]}
+    return _finish(case, set(hlabels) | set(plabels), exact, len(case["ids"]))
+
+
+def body_small_staged(case):
+    """the enumerated space built edge by edge on one object; after every addEdge all paths; then a sub-network is
+    extracted around one node, a path is asked from another node, every path of the sub-network, every path of the network"""
+    full = expand_small(case, geom=True)
+    m = len(full["edges"])
+    hist = [["all"]]
+    for j in range(m):
+        hist += [["add", 1], ["all"]]
+    hist += [["sub", m, ["abs", 1.0], "TOPOLOGIC"], ["path", m + 1, m], ["suball"], ["all"]]
+    full["hist"] = hist
+    hlabels, judged, plabels, _ = run_history(full, path_judge=check_path)
+    return _finish(full, set(hlabels) | set(plabels), True, 3)
+
+
+def strat_history():
+    return st.one_of(history_cases(geom=True, paths=True), history_cases(geom=True, paths=True),
+                     history_cases(geom=True, paths=True), history_cases(geom=True, astar=True, paths=True))
 
 
 def strat_paths():
@@ -159,13 +204,28 @@ RULE = ("paths: Hypothesis multigraphs of 1..12 nodes and 0..40 edges as for C06
         "shortest_path. small: every edge sequence of length <= 2 (quick) / <= 3 (thorough) over 3 nodes, weights {0,1,2}, "
         "edge k carrying k%3 private interior vertices. Non-trivial: some returned path has >= 2 hops and a hop whose returned "
         "geometry is that of a cheapest edge stored against the direction of travel, or whose cheapest edge has zero weight, "
-        "or that has parallel candidate edges of different weight. Distinct = hash of the case.")
+        "or that has parallel candidate edges of different weight. "
+        "history: multigraphs of 2..8 nodes / <= 16 edges (1 in 4: A*, <= 10 nodes / 30 edges) as a program run on ONE Network "
+        "object: edges added whole / prefix + rest / 2-4 groups / last 1-4 one by one, isolated nodes declared before, early "
+        "or late; between the stages and at the end 0..3 segments of: a judged path query (one pair s != t, or all ordered "
+        "pairs), an unjudged distance / list / table / prepare / cut-off query, or a sub_network extraction (TOPOLOGIC / "
+        "GEOMETRIC) followed by 1..5 operations alternating between network and sub-network (paths of the sub-network are "
+        "judged too) and a final single query. small-staged: the enumerated space built edge by edge with all paths after "
+        "every addEdge, then sub_network around one node, a path query from another node, all paths of the sub-network, all "
+        "paths of the network. Distinct = hash of the case.")
 
 SUBCHECKS = [
     SubCheck("paths", body_graph, strategy=strat_paths, quick=4000, thorough=120000, qshards=12,
              rule="random multigraphs with geometries, all ordered pairs s != t"),
-    SubCheck("astar", body_graph, strategy=strat_astar, quick=2500, thorough=80000, qshards=4,
+    SubCheck("astar", body_graph, strategy=strat_astar, quick=2500, thorough=80000, qshards=6,
              rule="A* routing method, weights >= straight-line distance of the end nodes (admissible heuristic), all ordered pairs s != t"),
+    SubCheck("history", body_history, strategy=strat_history, quick=1200, thorough=60000, qshards=8,
+             rule="one Network object built in stages with path queries between / after interfering activity (cut-off "
+                  "queries, tables, prepare, sub_network extraction and searches on the sub-network); every judged path "
+                  "against Floyd-Warshall and the geometries of the edges present at that time; 1 in 4 with A* routing"),
+    SubCheck("small-staged", body_small_staged, enum=enum_small,
+             rule="the enumerated space built edge by edge on one object: all paths after every addEdge, then a sub-network "
+                  "searched between judged rounds", qshards=4),
     SubCheck("small", body_graph, enum=enum_small,
              rule="all graphs on 3 nodes with <= 2 (quick) / <= 3 (thorough) edges, weights {0,1,2}", qshards=4),
 ]
